@@ -6,6 +6,7 @@ SPEC = {
         "shims": {"client": "internal/client", "mapping": "internal/client/mapping"},
         "runs": [{"args": [], "corpus": ""}],
     },
+    "strip_obs": r" stalls \d+( \w+ \d+)*",
     "rule": ("the real iocopy.Bidirectional / iocopy.UDP between scripted fake endpoints whose every Read is gated by a "
              "scheduler (the schedule token order is part of the case and is forced on the two relay goroutines). TCP: all "
              "pairs of short scripts (0-3 chunks, empty reads, EOF/error tails, tail fused with the last chunk) x ALL "
@@ -41,8 +42,8 @@ SPEC = {
     "assumptions": [
         "WF (UDP): datagrams carried by the encoding have 1 <= len <= 65535 (zero-length datagrams are dropped, a 65536-byte read is mis-encoded as length 0: outside WF, replayed)",
         "WF (UDP): not both sides block forever (then the relay rightly never returns)",
-        "WF (TCP): not both peers passive; a passive peer sits behind an object with CloseWrite (for a transport without half-close — the wrapper kinds, as the tunnel side is built in production — a passive peer is released only by the final Close, which waits for both directions: model witness C12_tcp_passive_peer_needs_halfclose_witness, not run against the code)",
-        "Writes to the UDP socket and to the tunnel succeed while the relay runs (write-error paths of iocopy.UDP are not modelled); TCP sinks refuse a whole Write (no short writes)",
+        "WF (TCP): not both peers passive; a passive peer sits behind an object with CloseWrite (for a transport without half-close — the wrapper kinds — a passive peer is released only by the final Close, which waits for both directions). This configuration IS reachable in production: client transports websocket, KCP and QUIC give connections without CloseWrite, and mapping/base.go, target_handler.go and socks5_tunnel.go wrap them with NewReadWriteCloser (only the TCP transport's *net.TCPConn forwards the half-close). Recorded as known finding C12-passive-peer-closeonly-tunnel, replayed against the real wrapper on every run (corpus/C12/known-passive-closeonly.txt); not repaired: forwarding the end of a direction over these transports needs a protocol message, tearing the pair down on error changes delivery semantics",
+        "tunnel Writes of the UDP->tunnel goroutine succeed while the relay runs (its flush-error branches are not modelled; a refused Write on the UDP socket is: uwfail); TCP sinks refuse a whole Write (no short writes)",
         "a schedule step is one loop iteration of one goroutine (Read .. next Read), or the begin / the end of a Write that stays in progress; the two directions share no state except through the endpoints",
         "the real 20 ms flush ticker cannot be stopped: a run in which it fired outside the scheduled windows before a scheduled slow write is detected and repeated (stat reruns_unscheduled_tick)",
         "asynchronous local socket (mapping.UDPVirtualConn): its send loop stops when the relay closes the session; the harness lets the socket take what is queued before the end of the tunnel is delivered (a datagram still queued at teardown may be dropped by the unchanged code: UDP loss at close, not counted against the property); no local->tunnel traffic and no fused tail in these cases",
